@@ -75,8 +75,18 @@ class LeakHarness(planh.PlanHarness):
         def f(*args, **kwargs):
             s = e1.sched()
             s.log("start", i)
+            if harness.cfg["W"] == 1:
+                # one worker: when a call starts, the engine-side processing of every earlier call is over
+                s.ctx["completed"].update(s.ctx["started"])
+            s.ctx["started"].append(i)
             harness.audit(s, ("start", i))
             e1.hpoint(("call", i))
+            if i in harness.fail:
+                ex = engine.make_exc(harness.fail[i], f"c{i}")
+                if s.ctx["first_failed"] is None:
+                    s.ctx["first_failed"] = i
+                s.log("raise", i)
+                raise ex
             r = Res(i)
             s.ctx["wr"][i] = weakref.ref(r)
             s.log("end", i)
@@ -89,6 +99,8 @@ class LeakHarness(planh.PlanHarness):
         ctx = super().setup(s)
         ctx["wr"] = {}
         ctx["completed"] = set()
+        ctx["started"] = []
+        ctx["first_failed"] = None
         self.extra_refs = []
         self.written = set()
         return ctx
@@ -153,8 +165,10 @@ class LeakHarness(planh.PlanHarness):
         if alive:
             gc.collect()
             alive = [i for i in alive if ctx["wr"][i]() is not None]
+        ff = ctx["first_failed"]
         for i in alive:
-            s.log("leak", i, where)
+            pinned = ff is not None and ff in self.consumers[i]
+            s.log("leak", i, where, "first-error" if pinned else "")
 
     def body(self, ctx):
         r = super().body(ctx)
@@ -174,6 +188,10 @@ class LeakHarness(planh.PlanHarness):
         leaks = {}
         for e in s.events:
             if e[0] == "leak":
+                if e[3] == "first-error":
+                    msgs.append(("C16F", f"[first-error-pins] result of call {e[1]} is still referenced at {e[2]} although every call consuming it has finished: "
+                                        f"its consumer {s.ctx['first_failed']} was the first call to fail, and the retained first error (traceback -> frames) keeps its arguments alive until the run ends"))
+                    continue
                 leaks.setdefault(e[1], e[2])
             elif e[0] == "outdead":
                 msgs.append(("C16", f"result of call {e[1]} is part of the requested output but was dead when run returned"))
@@ -191,7 +209,7 @@ class LeakHarness(planh.PlanHarness):
         if s.uncaught:
             yield ("C07", f"uncaught exception in a thread: {s.uncaught}")
         mr = s.main_result
-        if mr and mr[0] == "exc":
+        if mr and mr[0] == "exc" and not self.fail:
             yield ("C16", f"run raised {mr[1]!r}")
 
 
@@ -228,17 +246,41 @@ def cfgs(tier, W):
             yield {"n": n, "edges": kedges, "output": n - 1, "W": W, "sched": "default", "stored": [0, n - 1]}
 
 
+def fault_cfgs(tier):
+    """W=1, max_errors=None: consumers fail (Exception / BaseException / SystemExit); producers succeed."""
+    # every shape ends with independent calls, so that in some pop orders work continues after the failures
+    shapes = [(5, [(0, 2), (1, 3)]), (5, [(0, 1), (0, 2), (0, 3)]), (6, [(0, 3), (1, 3), (1, 4), (2, 4)]), (6, [(0, 1), (2, 3)])]
+    kinds = ["exc", "base", "sysexit"]
+    for n, edges in shapes:
+        consumers = sorted({j for _, j in edges})
+        for r in (1, 2):
+            import itertools
+            for fs in itertools.combinations(consumers, r):
+                for ks in itertools.product(kinds, repeat=r):
+                    for sc in ("default", "random"):
+                        yield {"n": n, "edges": [(i, j, "p") for i, j in edges], "output": [i for i in range(n) if any(e[1] == i for e in edges) or not any(e[0] == i for e in edges)], "W": 1, "sched": sc,
+                               "fail": {str(f): k for f, k in zip(fs, ks)}, "max_errors": None}
+
+
 def explorations(tier):
     if tier == "quick":
         return [("G3+G4+scheduler-test shapes, W=1, <=1 preemption, random draws enumerated (<=2 deviations)", FACTORY, list(cfgs(tier, 1)), {"preempt": 1, "random": 2, "yield": 1}),
-                ("G3+scheduler-test shapes, W=2, <=1 preemption", FACTORY, list(cfgs(tier, 2)), {"preempt": 1, "random": 1, "yield": 1})]
+                ("G3+scheduler-test shapes, W=2, <=1 preemption", FACTORY, list(cfgs(tier, 2)), {"preempt": 1, "random": 1, "yield": 1}),
+                ("failing consumers (Exception/BaseException/SystemExit), max_errors=None, W=1", FACTORY, [c for c in fault_cfgs(tier) if c["sched"] == "random" or len(c["fail"]) == 1], {"preempt": 0})]
     return [("G3+G4+shapes, W=1, <=1 preemption, all random draws", FACTORY, list(cfgs(tier, 1)), {"preempt": 1}),
-            ("G3+G4+shapes, W=2, <=2 preemptions", FACTORY, list(cfgs(tier, 2)), {"preempt": 2, "random": 1, "yield": 2})]
+            ("G3+G4+shapes, W=2, <=2 preemptions", FACTORY, list(cfgs(tier, 2)), {"preempt": 2, "random": 1, "yield": 2}),
+            ("failing consumers (Exception/BaseException/SystemExit), max_errors=None, W=1", FACTORY, list(fault_cfgs(tier)), {"preempt": 1})]
 
 
 def run(tier):
-    return e1prop.run(PROP, explorations(tier))
+    # the known-finding class has its own tag so that it cannot crowd other C16 counterexamples out of the per-tag quota
+    res = e1prop.run(PROP, explorations(tier), accept_tags={"C16F"})
+    for v in res["violations"]:
+        if "[first-error-pins]" in v.message:
+            kind = "BaseException" if any(k in v.key for k in ('"base"', '"sysexit"')) and '"exc"' not in v.key.split("::")[0] else "Exception"
+            v.key = "first failing consumer keeps its arguments alive until the run ends"
+    return res
 
 
 def replay(rep):
-    return e1prop.replay(PROP, rep)
+    return e1prop.replay(PROP, rep, accept_tags={"C16F"})
